@@ -59,6 +59,7 @@ func (vfs *OrefaFS) createNode(parent *node, absPath, fileName string, mode fs.F
 		id:    atomic.AddUint64(vfs.lastId, 1),
 		mtime: time.Now().UnixNano(),
 		mode:  mode,
+		isDir: mode.IsDir(),
 		uid:   vfs.User().Uid(),
 		gid:   vfs.User().Gid(),
 		nlink: 1,
@@ -170,7 +171,7 @@ func (nd *node) setOwner(uid, gid int) {
 		nd.gid = gid
 	}
 
-	if nd.mode.IsRegular() {
+	if !nd.isDir {
 		// As chown(2), changing the owner of a regular file clears its set-user-ID bit,
 		// and its set-group-ID bit if the file is group executable.
 		nd.mode &^= fs.ModeSetuid
@@ -183,7 +184,7 @@ func (nd *node) setOwner(uid, gid int) {
 
 // size returns the size of the file.
 func (nd *node) size() int64 {
-	if nd.mode.IsDir() {
+	if nd.isDir {
 		return int64(len(nd.children))
 	}
 
